@@ -13,7 +13,7 @@ M = {
     "M01-string-size-from-chars": ("C01 C03 C05", "xobjects/string.py", 'size = _to_slot_size(len(data) + 1 + 8)', 'size = _to_slot_size(len(string_or_int) + 1 + 8)', "String size computed from the character count instead of the UTF-8 byte count (multi-byte text under-allocates)"),
     "M02-align-round-down": ("C04 C12", "xobjects/context.py", "return (offset + alignment - 1) & (-alignment)", "return offset & (-alignment)", "_align rounds down"),
     "M03-ref-ignores-buffer-identity": ("C08 C09", "xobjects/ref.py", "            value.__class__.__name__ == self._reftype.__name__  # same type\n            and value._buffer is buffer\n        ):", "            value.__class__.__name__ == self._reftype.__name__  # same type\n        ):", "Ref._to_buffer aliases whenever the class name matches, ignoring buffer identity"),
-    "M04-struct-update-no-size-test": ("C10 C11", "xobjects/struct.py", "            and value._size == self._size\n", "", "Struct._update byte-copies without comparing sizes"),
+    "M04-struct-update-no-size-test": ("C10 C11", "xobjects/struct.py", "            and self.__class__._size is not None\n", "", "Struct._update byte-copies dynamic structs again, without comparing sizes or layouts"),
     "M05-last-fit": ("C12", "xobjects/context.py", "            for chunk in self.chunks:\n                offset = _align(chunk.start, alignment)", "            for chunk in reversed(self.chunks):\n                offset = _align(chunk.start, alignment)", "allocate scans the free list backwards (last fit)"),
     "M06-no-coalescing-of-touching": ("C12", "xobjects/context.py", "return (other.end >= self.start) and (other.start <= self.end)", "return (other.end > self.start) and (other.start < self.end)", "touching free chunks no longer merge"),
     "M07-to_native-no-copy": ("C13", "xobjects/context_cpu.py", '''    def to_native(self, offset, nbytes):
@@ -54,7 +54,7 @@ M = {
     "M17-hybrid-keeps-old-dressed-child": ("C18", "xobjects/hybrid_class.py", "            setattr(container, \"_dressed_\" + self.name, dressed_new)\n", "            if not hasattr(container, \"_dressed_\" + self.name):\n                setattr(container, \"_dressed_\" + self.name, dressed_new)\n", "a by-value assignment of a hybrid object keeps the previously dressed child"),
     "M18-to_dict-type-default": ("C19", "xobjects/hybrid_class.py", "                defaults[field.name] = field.get_default()", "                defaults[field.name] = field.ftype()", "to_dict elides values equal to the type default instead of the declared default"),
     "M19-getstate-drops-offset": ("C20", "xobjects/struct.py", "        return self._buffer, self._offset\n", "        return self._buffer, 0 if self._offset < 64 else self._offset\n", "pickling forgets small non-zero offsets"),
-    "M20-context-setstate-shares-buffer-set": ("C20", "xobjects/context_cpu.py", "        state = self.__dict__.copy()\n        state[\"_kernels\"] = {}\n        del state[\"_buffers\"]\n        return state", "        state = self.__dict__.copy()\n        state[\"_kernels\"] = {}\n        del state[\"_buffers\"]\n        state[\"omp_num_threads\"] = 0\n        return state", "unpickled OpenMP contexts silently become serial (not observable by the property: control mutant, expected to be missed)"),
+    "M20-context-setstate-shares-buffer-set": ("C20", "xobjects/context_cpu.py", "        state.pop(\"omp_get_max_threads\", None)\n        return state", "        state.pop(\"omp_get_max_threads\", None)\n        state[\"omp_num_threads\"] = 0\n        return state", "unpickled OpenMP contexts silently become serial (not observable by the property: control mutant, expected to be missed)"),
     "M21-grow-keeps-stale-chunk-end": ("C04 C12", "xobjects/context.py", "            self.chunks[-1].end = newcapacity\n", "            self.chunks[-1].end = newcapacity if capacity else self.chunks[-1].end + 1\n", "grow(0) extends the last free chunk by one byte beyond the capacity"),
     "M22-cuda-guard-inclusive": ("C16", "xobjects/specialize_source.py", 'f"if ({varname}<{limname})" + "{"', 'f"if ({varname}<={limname})" + "{"', "CUDA guard uses <="),
 }
